@@ -195,3 +195,9 @@ func verifDecimal(minDigits, maxDigits int, max uint64) uint64 {
 }
 
 func verifYieldNative() { time.Sleep(time.Microsecond) }
+
+// verifQuiesce: under schedule exploration the caller waits until no other
+// goroutine can run and gets the number of goroutines that have not ended
+// (the goroutine census); natively goroutines get a moment to wind down and
+// the census is not taken (0).
+func verifQuiesce() int { time.Sleep(30 * time.Millisecond); return 0 }
